@@ -386,6 +386,113 @@ def gen_visibility(rng):
     out.append("top frameend")
     return "\n".join(out) + "\n"
 
+def gen_ewr(rng):
+    """C16: world reactors and entity world reactors: add / remove (full, partial, multi-entity bundles) / trigger /
+    despawn, triggers from inside the reactor."""
+    g = G(rng); out = []
+    nE = rng.randint(2, 4)
+    g.ndefs = rng.randint(2, 3); g.excl = [False] * g.ndefs
+    g.n_wr = rng.randint(0, 2); g.n_ewr = rng.randint(1, 2)
+    def ewr_trigs(wr, e, full=False):
+        kinds = ["emut:%s:0", "eev:%s:0"] if wr == 0 else ["eins:%s:1", "erem:%s:1", "eev:%s:1"]
+        ts = [k % e for k in kinds if full or rng.random() < 0.6]
+        return ts
+    def fire(e):
+        return rng.choice(["mutate %s 0 %d" % (e, rng.randrange(4)), "entevent %s 0 %d" % (e, g.newpid()), "insert %s 1 %d" % (e, rng.randrange(4)),
+                           "remove %s 1" % e, "entevent %s 1 %d" % (e, g.newpid()), "insert %s 0 %d" % (e, rng.randrange(4))])
+    for d in range(g.ndefs):
+        runs = []
+        for _ in range(rng.randint(1, 3)):
+            sc = []
+            for _ in range(rng.randint(0, 2)):
+                x = rng.random(); e = "e%d" % rng.randrange(nE)
+                if x < 0.5: sc.append(fire(e))
+                elif x < 0.65: sc.append("ewradd %d %s %d" % (rng.randrange(g.n_ewr), e, rng.randrange(9)))
+                elif x < 0.8: sc.append("ewrremove %d %s" % ((lambda w: (w, " ".join(ewr_trigs(w, e))))(rng.randrange(g.n_ewr))))
+                elif x < 0.9 and g.n_wr: sc.append("wrrun %d" % rng.randrange(g.n_wr))
+                else: sc.append("despawn %s" % e)
+            runs.append(sc)
+        out.append("def 0 %d" % len(runs))
+        for sc in runs: out.append("run %d" % len(sc)); out += sc
+    for k in range(g.n_wr): out.append("wr %d" % rng.randrange(g.ndefs))
+    for k in range(g.n_ewr): out.append("ewr %d" % rng.randrange(g.ndefs))
+    setup = ["spawn"] * nE
+    for e in range(nE):
+        if rng.random() < 0.8: setup.append("insert e%d 0 %d" % (e, rng.randrange(4)))
+        if rng.random() < 0.5: setup.append("insert e%d 1 %d" % (e, rng.randrange(4)))
+    for e in range(nE):
+        for w in range(g.n_ewr):
+            if rng.random() < 0.7: setup.append("ewradd %d e%d %d" % (w, e, rng.randrange(9)))
+    for w in range(g.n_wr):
+        setup.append("wradd %d %s" % (w, g.trigs(1, 3, ["bc", "res", "mut", "ins", "eev", "emut"])))
+    out.append("top acts %d" % len(setup)); out += setup
+    for _ in range(rng.randint(3, 8)):
+        sc = []
+        for _ in range(rng.randint(1, 3)):
+            x = rng.random(); e = "e%d" % rng.randrange(nE)
+            if x < 0.45: sc.append(fire(e))
+            elif x < 0.55: sc.append("ewradd %d %s %d" % (rng.randrange(g.n_ewr), e, rng.randrange(9)))
+            elif x < 0.8:
+                w = rng.randrange(g.n_ewr)
+                ts = ewr_trigs(w, e, full=rng.random() < 0.5)
+                if rng.random() < 0.5:
+                    e2 = "e%d" % rng.randrange(nE); ts = ewr_trigs(w, e2, full=rng.random() < 0.6) + ts
+                sc.append("ewrremove %d %s" % (w, " ".join(ts)))
+            elif x < 0.86 and g.n_wr: sc.append(rng.choice(["wrrun %d" % rng.randrange(g.n_wr), "wrremove %d %s" % (rng.randrange(g.n_wr), g.trigs(1, 2, ["bc", "res", "mut"])), "broadcast 0 %d" % g.newpid(), "resmut 0"]))
+            elif x < 0.93: sc.append("despawn %s" % e)
+            else: sc.append("broadcast %d %d" % (rng.randrange(NTY), g.newpid()))
+        out.append("top acts %d" % len(sc)); out += sc
+        if rng.random() < 0.2: out.append("top frameend")
+    out.append("top frameend")
+    return "\n".join(out) + "\n"
+
+def gen_once2(rng):
+    """C15: once-reactors with 0..3 triggers (including several despawn triggers), several of their triggers firing in one
+    batch / nested / later, self-triggering bodies, revocation at any point."""
+    g = G(rng); out = []
+    nE = rng.randint(2, 4)
+    g.ndefs = rng.randint(1, 3); g.excl = [False] * g.ndefs
+    keys = [("bc", None, rng.randrange(NTY)), ("res", None, rng.randrange(NTY))]
+    for e in range(nE): keys.append(("dsp", "e%d" % e, 0))
+    keys.append(("eev", "e%d" % rng.randrange(nE), rng.randrange(NTY)))
+    keys.append(("emut", "e%d" % rng.randrange(nE), 0))
+    for d in range(g.ndefs):
+        runs = []
+        for _ in range(rng.randint(1, 2)):
+            sc = []
+            for _ in range(rng.randint(0, 2)):
+                k = rng.choice(keys); x = rng.random()
+                if x < 0.7: sc.append(TRIGGER_ACT[k[0]](g, k[1], k[2]))
+                elif x < 0.85: sc.append("revoke t%d" % rng.randrange(4))
+                else: sc.append("run s%d" % rng.randrange(3))
+            runs.append(sc)
+        out.append("def 0 %d" % len(runs))
+        for sc in runs: out.append("run %d" % len(sc)); out += sc
+    setup = ["spawn"] * nE
+    for e in range(nE): setup.append("insert e%d 0 1" % e)
+    nT = 0
+    for _ in range(rng.randint(1, 4)):
+        n = rng.choice([0, 1, 1, 2, 2, 3])
+        ks = [rng.choice(keys) for _ in range(n)]
+        if rng.random() < 0.3: ks = [k for k in keys if k[0] == "dsp"][:rng.randint(2, 3)]
+        setup.append("once %d %s" % (rng.randrange(g.ndefs), " ".join(key_str(*k) for k in ks))); nT += 1
+    if rng.random() < 0.4: setup.append("on %s %d %s" % (rng.choice("pc"), rng.randrange(g.ndefs), key_str(*rng.choice(keys))))
+    out.append("top acts %d" % len(setup)); out += setup
+    for _ in range(rng.randint(2, 6)):
+        sc = []
+        for _ in range(rng.randint(1, 4)):
+            k = rng.choice(keys); x = rng.random()
+            if x < 0.75: sc.append(TRIGGER_ACT[k[0]](g, k[1], k[2]))
+            elif x < 0.9: sc.append("revoke t%d" % rng.randrange(nT))
+            else: sc.append("despawn s%d" % rng.randrange(nT))
+        out.append("top acts %d" % len(sc)); out += sc
+        x = rng.random()
+        if x < 0.3: out.append("top gc")
+        elif x < 0.5: out.append("top frameend")
+        elif x < 0.6: out.append("top poll")
+    out.append("top frameend")
+    return "\n".join(out) + "\n"
+
 PROFILES = {
     "mix": lambda rng: gen_mix(rng),
     "big": lambda rng: gen_mix(rng, size=2.0),
@@ -393,6 +500,8 @@ PROFILES = {
     "recursion": lambda rng: gen_mix(rng, size=1.5, body_weights=dict(control=8, trigger=6, register=0.5, life=0.5), weights=dict(control=5, trigger=5)),
     "lifetime": lambda rng: gen_mix(rng, weights=dict(register=4, revoke=4, life=3, trigger=3), body_weights=dict(revoke=2, life=2, register=2)),
     "signals": gen_signals,
+    "ewr": gen_ewr,
+    "once2": gen_once2,
     "visibility": gen_visibility,
     "sharedkey": gen_sharedkey,
     "removal2": gen_removal2,
